@@ -135,6 +135,7 @@ def c04_events(version, n, seed):
                        "_m": {"ver": version, "c": c, "n": k, "equal": bool(np.array_equal(zi, zx))}})
     if version == 3:
         events += synthetic_events(max(10, n // 20), seed + 9)
+    events += alt_sampler_events(version, taus, B, rng, max(3, n // 150))
     # recorded stream, all angles in range: a single draw of the batch length is position-wise unambiguous
     k = 50
     bb = rng.uniform(B[0], B[-1], k)
@@ -146,6 +147,35 @@ def c04_events(version, n, seed):
         zx = taus.tau_energy(bb.copy(), ee.copy(), np.asarray(rec.draws[0]["values"]).reshape(k))
         events.append({"kind": "explicit", "zint": [bits(x) for x in zi], "zexp": [bits(x) for x in zx],
                        "_m": {"ver": version, "c": "recorded", "n": k, "equal": bool(np.array_equal(zi, zx))}})
+    return events
+
+
+def alt_sampler_events(version, taus, B, rng, k):
+    """the alternative samplers of cdf.py (fixed neutrino energy): lerp = the same bilinear inverse transform, nearest = the
+    distribution of the nearest tabulated angle.  Extended specification (EXT clauses)."""
+    from nuspacesim.utils.cdf import lerp_cdf_sampler, nearest_cdf_sampler
+    events = []
+    mids = 0.5 * (B[1:] + B[:-1])
+    for _ in range(k):
+        e = float(rng.choice([6.0, 12.0, rng.uniform(6, 12), rng.uniform(6, 12), 7.25]))
+        m = 12
+        bb = rng.uniform(B[0], B[-1], m)
+        bb[0], bb[1], bb[2] = B[0], B[-1], B[rng.integers(len(B))]
+        uu = rng.uniform(1e-6, 1 - 1e-6, m)
+        for name, mk in (("lerp", lerp_cdf_sampler), ("nearest", nearest_cdf_sampler)):
+            b2 = bb.copy()
+            if name == "nearest":      # stay clear of the mid-points, where "nearest" is a tie
+                near = np.min(np.abs(b2[:, None] - mids[None, :]), axis=1) < 1e-9
+                b2 = b2[~near]
+            try:
+                z = np.asarray(mk(taus.tau_cdf_grid, e)(b2.copy(), uu[: len(b2)].copy()), dtype=float)
+            except Exception as ex:
+                events.append({"kind": "zalt", "sampler": name, "e": bits(e), "b": bits(b2[0]), "u": bits(uu[0]), "z": bits(-1.0),
+                               "_m": {"ver": version, "sampler": name, "raised": repr(ex)[:200]}})
+                continue
+            for i in range(len(b2)):
+                events.append({"kind": "zalt", "sampler": name, "e": bits(e), "b": bits(b2[i]), "u": bits(uu[i]), "z": bits(z[i]),
+                               "_m": {"ver": version, "sampler": name, "e": e, "b": float(b2[i]), "u": float(uu[i]), "z": float(z[i])}})
     return events
 
 
